@@ -185,6 +185,8 @@ pub trait DynSub {
     fn replay(&self, case: &serde_json::Value) -> (Result<(), String>, Rep);
     /// labels that have to reach a minimal share of all cases (generator health)
     fn min_label_rates(&self) -> &[(&'static str, f64)];
+    /// stop a worker's loop over this sub check after that many (shrunk) failures
+    fn max_failures(&self) -> usize;
 }
 
 pub struct Sub<S: Strategy> {
@@ -195,6 +197,8 @@ pub struct Sub<S: Strategy> {
     pub oracle: Box<dyn Fn(&S::Value, &mut Rep) -> Result<(), String>>,
     pub min_rates: Vec<(&'static str, f64)>,
     pub max_shrink_iters: u32,
+    pub max_shrink_secs: u64,
+    pub max_failures: usize,
 }
 
 pub fn sub<S>(
@@ -213,6 +217,8 @@ where
         oracle: Box::new(oracle),
         min_rates: vec![],
         max_shrink_iters: 2000,
+        max_shrink_secs: 120,
+        max_failures: 3,
     }
 }
 impl<S: Strategy> Sub<S> {
@@ -222,6 +228,12 @@ impl<S: Strategy> Sub<S> {
     }
     pub fn shrink_iters(mut self, n: u32) -> Self {
         self.max_shrink_iters = n;
+        self
+    }
+    /// for slow (process spawning) sub checks: little shrinking time, one counterexample per worker
+    pub fn slow(mut self) -> Self {
+        self.max_shrink_secs = 40;
+        self.max_failures = 1;
         self
     }
     pub fn boxed(self) -> Box<dyn DynSub>
@@ -246,6 +258,9 @@ where
     }
     fn min_label_rates(&self) -> &[(&'static str, f64)] {
         &self.min_rates
+    }
+    fn max_failures(&self) -> usize {
+        self.max_failures
     }
     fn generate(&self, seed32: &[u8; 32]) -> serde_json::Value {
         let mut runner = runner_for(seed32);
@@ -278,10 +293,12 @@ where
         // shrink (a failure that falls into a known class counts as pass so we dont drift)
         let mut best = (v, r.clone().unwrap_err(), rep);
         let mut iters = 0;
+        let shrink_start = std::time::Instant::now();
         if tree.simplify() {
             loop {
                 iters += 1;
-                if iters > self.max_shrink_iters {
+                // the time budget only limits how small the counterexample gets, never the verdict
+                if iters > self.max_shrink_iters || shrink_start.elapsed().as_secs() > self.max_shrink_secs {
                     break;
                 }
                 let cur = tree.current();
@@ -435,7 +452,7 @@ pub fn worker_main(def: PropertyDef, a: &WorkerArgs) {
                         }
                     }
                     Err(msg) => {
-                        if st.failures.len() < MAX_FAILURES_PER_SUB {
+                        if st.failures.len() < s.max_failures() {
                             st.failures.push(ReplayFile {
                                 property: a.prop.clone(),
                                 subcheck: s.name().to_string(),
@@ -446,7 +463,7 @@ pub fn worker_main(def: PropertyDef, a: &WorkerArgs) {
                                 finding: None,
                             });
                         }
-                        if st.failures.len() >= MAX_FAILURES_PER_SUB {
+                        if st.failures.len() >= s.max_failures() {
                             break; // enough evidence for this sub check
                         }
                     }
@@ -578,8 +595,32 @@ pub fn supervise(
         })
         .collect();
     let mut results: Vec<WorkerResult> = vec![];
+    let deadline_s: u64 = std::env::var("VERIF_DEADLINE_S").ok().and_then(|s| s.parse().ok()).unwrap_or(match tier {
+        Tier::Quick => 1500,
+        Tier::Thorough => 6 * 3600,
+    });
+    let t_start = std::time::Instant::now();
     while let Some(mut w) = ws.pop() {
-        let status = w.child.wait().expect("wait failed");
+        let status = loop {
+            match w.child.try_wait().expect("wait failed") {
+                Some(st) => break Some(st),
+                None => {
+                    if t_start.elapsed().as_secs() > deadline_s {
+                        let _ = w.child.kill();
+                        let _ = w.child.wait();
+                        break None;
+                    }
+                    std::thread::sleep(std::time::Duration::from_millis(20));
+                }
+            }
+        };
+        let status = match status {
+            Some(s) => s,
+            None => {
+                summary.infra_errors.push(format!("watchdog: worker {} still running after {} s - killed (inconclusive, not a violation)", w.idx, deadline_s));
+                continue;
+            }
+        };
         if status.success() && w.out.exists() {
             match std::fs::read(&w.out)
                 .ok()
